@@ -86,6 +86,12 @@ const CLAUSES: &[&str] = &[
     "Back in the `day` we would of course go.",
     // misspellings whose nearest user-dictionary words (TIES) are equally far away
     "The wrod and the quikk reply were discusd openly.",
+    // the same misspellings in other letter cases (sentence-initial, proper-noun-like, capitals):
+    // what is suggested for one spelling must not leak into another
+    "Jhon wrote to Pual about amercia last week.",
+    "We saw jhon and pual in Amercia again.",
+    "Teh package was recieved. Recieve it again, Nieghbor.",
+    "TEH WROLD IS BIG and Helo is a word.",
 ];
 
 /// User-dictionary words that tie, in edit distance, as corrections of misspellings in CLAUSES:
@@ -104,7 +110,35 @@ fn gen_doc(rng: &mut Rng) -> String {
     if rng.chance(1, 6) {
         s.insert_str(0, *rng.pick(&["Dr. Who e.g. said... ", "𝒜𝒜 ", "1st 2nd 3rd ", "> "]));
     }
+    if rng.chance(1, 4) {
+        s = recase_a_word(rng, &s);
+    }
     s
+}
+
+/// The same document with one of its words in another letter case (first letter toggled, or the
+/// whole word in capitals or lower case): a long-lived linter meets words it has seen before in
+/// a spelling that differs only in case.
+fn recase_a_word(rng: &mut Rng, s: &str) -> String {
+    let chars: Vec<char> = s.chars().collect();
+    let starts: Vec<usize> = (0..chars.len())
+        .filter(|&i| chars[i].is_ascii_alphabetic() && (i == 0 || !chars[i - 1].is_ascii_alphabetic()))
+        .collect();
+    if starts.is_empty() {
+        return s.to_string();
+    }
+    let a = *rng.pick(&starts);
+    let mut b = a;
+    while b < chars.len() && chars[b].is_ascii_alphabetic() {
+        b += 1;
+    }
+    let mut out = chars.clone();
+    match rng.range(0, 3) {
+        0 => out[a] = if chars[a].is_ascii_uppercase() { chars[a].to_ascii_lowercase() } else { chars[a].to_ascii_uppercase() },
+        1 => (a..b).for_each(|i| out[i] = chars[i].to_ascii_uppercase()),
+        _ => (a..b).for_each(|i| out[i] = chars[i].to_ascii_lowercase()),
+    }
+    out.into_iter().collect()
 }
 
 fn parser_for(markdown: bool) -> Box<dyn Parser> {
